@@ -85,11 +85,13 @@ func hC05Resp() {
 	script.respHdrs = http.Header{"X-Resp": {string(v[:1]), "h2"}, "X-Resp-Bin": {"AAEC"}}
 	script.trailerHdrs = http.Header{"X-Trail": tvals, "X-Trail-Bin": {"/w=="}}
 	if target == ProtocolGRPC {
-		switch verifChoose("announce", 3) {
+		switch verifChoose("announce", 4) {
 		case 1:
 			script.announce = true
 		case 2:
 			script.announce, script.announceLow = true, true // names declared in lower case
+		case 3:
+			script.announce, script.announceLine = true, true // one "A, B, C" line
 		}
 	}
 	isErr := verifChoose("error", 2) == 1
